@@ -437,6 +437,9 @@ def uci_early_stops(chk):
 def check_C07(chk):
     status, broken = common_front(chk)
     if not status.get("harness_release"):
+        # (the harness does not build, e.g. after a change of the search's signatures: the binary itself can still be asked)
+        if status.get("engine") and status.get("specdriver"):
+            chk.cov["input_distribution"] = {"uci_early_stops": uci_early_stops(chk)}
         return finish(chk, broken, [], [], {})
     blocks = stop_scripts(chk.tier, chk.seed)
     key = "stop-%s-%d" % (chk.tier, chk.seed)
